@@ -52,6 +52,9 @@ META = dict(
 META["rule"] += (
     " " + 'Added after the second round of seeded changes: recurrence networks built by threshold / recurrence_rate / local_recurrence_rate in three metrics on coarse (tied) values; visibility graphs natural and horizontal, with the graph REBUILT from the time-reversed series as a realised renumbering (retarded and advanced measures exchange).')
 
+META["rule"] += (
+    " " + 'Added after the third round: recurrence networks by `set_adaptive_neighborhood_size(m, order=...)` on tie-free data with the order renumbered along; 40 % consecutive layers and a quarter two-component graphs for the group measures, queried in random order; 30 % of the plain networks rebuilt from the renumbered edge list; time-symmetric visibility measures (boundary corrected degree / closeness, trans betweenness) under reversal.')
+
 HIST = ("distribution", "cdf", "histogram", "entropy")
 # nsi_degree_histogram & co. bin float values: when all nodes have the same
 # n.s.i. degree, rounding decides the bin (frequency histograms are outside
